@@ -83,6 +83,7 @@ uint8_t* vp_heap(size_t n) { static uint8_t* cur; static size_t left; n = (n + 1
 void vp_heap_free(uint8_t* p) { (void)p; }
 int vp_try(void (*fn)(void*), void* arg) { fn(arg); return 0; }
 int errno;
+void abort(void) { sys3(1, 134, 0, 0); for (;;) { } }
 void vp_watchdog_start(void) { }      /* the orchestrator limits the CPU time of this build's processes instead */
 void vp_curop(const char* a, const char* b, const char* c, uint64_t n) { (void)a; (void)b; (void)c; (void)n; }
 void vp_yield(uint64_t r) { (void)r; }
